@@ -334,3 +334,89 @@ def h_cmds(cmds: List[int], args: List[int], warm: int, icmd: int, iarg: int) ->
     post: _
     """
     return lifecycle(cmds, args, warm, icmd, iarg)
+
+
+# ---------------------------------------------------------------------------------------------------------------
+# commands issued from LISTENERS (they run on the run thread, or on the caller's thread for STARTING / STOPPING /
+# START_REPLICATION): a listener of one notification type issues one command the first time it is notified.
+# Nothing is predicted about whether the command is admitted; the quiescent rules of part 2 apply:
+# no transient run state at quiescence, ENDED consistent, well-formed stream, nothing lost or duplicated, an
+# ADMITTED command takes effect (a start runs to the end; a stop issued while model events are still pending
+# leaves the simulator paused), and a paused simulator can be resumed to the end.
+# ---------------------------------------------------------------------------------------------------------------
+LISTEN_ET = rt.envint("VF_LISTEN", 1)      # index into ALL_TYPES
+TOPCMD = rt.envint("VF_TOP", START)        # the command issued by the caller
+
+
+class Commander(EventListener):
+    def __init__(self, sim, model, cmd, arg):
+        self.sim, self.model, self.cmd, self.arg = sim, model, cmd, arg
+        self.result = None
+        self.at = None
+
+    def notify(self, event):
+        if self.result is None:
+            self.result = "pending"
+            self.at = (len(self.model.trace), self.sim.run_state, self.sim.replication_state)
+            self.result = issue(self.sim, self.model, None, self.cmd, self.arg)
+
+
+def h_listener(icmd: int, iarg: int, warm: int, targ: int) -> bool:
+    """
+    pre: icmd in (1, 2, 3, 4, 5)
+    pre: 0 <= iarg <= 6 and (icmd in (4, 5) or iarg == 0)
+    pre: 0 <= warm <= 5
+    pre: 0 <= targ <= 6 and (TOPCMD in (4, 5) or targ == 0)
+    post: _
+    """
+    sim = make_sim()
+    mon = Monitor()
+    model = Model(sim, mon, None)
+    rep = SingleReplication("rep", conv(0), conv(warm), conv(END))
+    quiet(sim.initialize, model, rep)
+    settle(sim)
+    com = Commander(sim, model, icmd, iarg)
+    for et in ALL_TYPES:
+        sim.add_listener(et, mon)
+    sim.add_listener(ALL_TYPES[LISTEN_ET], com)       # after the monitor: the monitor sees the notification, then the command acts
+    where = f"{NAMES[TOPCMD]}({targ}) with {NAMES[icmd]}({iarg}) issued by a listener of {ALL_TYPES[LISTEN_ET].name}"
+    top = issue(sim, model, rep, TOPCMD, targ)
+    settle(sim)
+    if top.startswith("other"):
+        return rt.fail("C04:" + NAMES[TOPCMD] + "-raised-" + top[6:], lambda: where)
+    res = com.result
+    if res is None:
+        return True                                   # the notification never came
+    if res == "pending" or res.startswith("other"):
+        return rt.fail("C04:listener-issued-" + NAMES[icmd] + "-raised-" + res.split(":")[-1], lambda: f"{where}: {res}")
+    rs, ps = sim.run_state, sim.replication_state
+    names = [n for n, _ in mon.log]
+    if rs not in (RunState.INITIALIZED, RunState.STOPPED, RunState.ENDED):
+        return rt.fail("C04:listener-command-leaves-transient-run-state-" + rs.name, lambda: f"{where} ({res} in {com.at}): {rs}/{ps}; stream {names}")
+    if (rs == RunState.ENDED) != (ps == ReplicationState.ENDED) or (ps == ReplicationState.ENDED) != (names.count("END_REPLICATION_EVENT") == 1):
+        return rt.fail("C04:listener-command-ended-inconsistent", lambda: f"{where} ({res}): {rs}/{ps}; stream {names}")
+    bad = check_stream(mon.log, warm, False)
+    if bad:
+        return rt.fail(bad + "-listener", lambda: f"{where} ({res} in {com.at}): stream {mon.log}")
+    idx = [i for _, i in model.trace]
+    order = [0, 2, 1, 3]                              # execution order of the four events (priorities 5,5,10,5 at 1,2,2,4)
+    if idx != order[:len(idx)]:
+        return rt.fail("C04:listener-command-events-lost-or-duplicated", lambda: f"{where} ({res}): trace {model.trace}")
+    if res == "ok":
+        done_before = com.at[0]
+        if icmd == START and rs != RunState.ENDED:
+            return rt.fail("C04:listener-issued-start-had-no-effect", lambda: f"{where}: admitted in {com.at}, quiescent in {rs}/{ps} at t={sim.simulator_time}; stream {names}")
+        if icmd == STOP and com.at[1] in (RunState.STARTING, RunState.STARTED) and LISTEN_ET in (1, 4, 7):
+            # admitted while the run was under way (notified of START / TIME_CHANGED / WARMUP): at most the event
+            # whose execution is already being prepared may still run
+            if len(idx) > done_before + 1:
+                return rt.fail("C04:listener-issued-stop-had-no-effect",
+                               lambda: f"{where}: admitted in {com.at} after {done_before} events, yet {len(idx)} events ran; final {rs}/{ps}; stream {names}")
+    if rs in (RunState.INITIALIZED, RunState.STOPPED) and sim.simulator_time <= conv(END):
+        sim.remove_listener(ALL_TYPES[LISTEN_ET], com)
+        r2 = issue(sim, model, rep, START, 0)
+        settle(sim)
+        if r2 != "ok" or sim.run_state != RunState.ENDED or [i for _, i in model.trace] != order:
+            return rt.fail("C04:listener-command-stuck-after-quiescence",
+                           lambda: f"{where} ({res}): start() at quiescence from {rs}/{ps} -> {r2}, {sim.run_state}, trace {model.trace}")
+    return True
